@@ -279,7 +279,29 @@ func checkC05(p *Prog, r *Report) {
 
 	// ---- R5.4 a role switch replaces the selector ---------------------------------------------------------
 	r.Rule("R5.4", "setSelector installs, on every path, a freshly built selector whose kind follows the role flag (controlling -> controllingSelector, otherwise controlledSelector), wrapped for a lite agent, started before it is installed; nothing else decides which selector is used.", 1)
+	checkSetSelectorTable(p, r)
+
+	// ---- R5.5 the role flag is used only inside the loop ----
+	r.Rule("R5.5", "The controlling/controlled flag is read and written only by code that runs inside the task loop or during construction: no exported entry point tests the role before queueing the task that depends on it.", 5)
+	checkRoleFlagConfined(p, r)
+}
+
+func boolStr(b bool) string {
+	if b {
+		return "yes"
+	}
+	return "no"
+}
+
+// checkSetSelectorTable: setSelector's decision table and who may install a selector
+// (C05 R5.4, shared with C03 R3.9).
+func checkSetSelectorTable(p *Prog, r *Report) {
 	if f := p.Fn("Agent.setSelector"); r.Anchor("Agent.setSelector", f != nil) {
+		// the role flag read directly, or through a local / parameter temporary that holds its value
+		isRoleLoad := func(e ast.Expr) bool {
+			c, _, ok := p.ResolveCall(f, e)
+			return ok && p.isMethodOnField(c, "Agent.isControlling", "Load")
+		}
 		t := p.NewTable(f)
 		t.Event = func(n ast.Node, _ *TEnv) []string {
 			var out []string
@@ -316,7 +338,7 @@ func checkC05(p *Prog, r *Report) {
 			role, lite := "", ""
 			for _, d := range pa.Hist {
 				switch {
-				case p.isMethodOnField(d.Atom.X, "Agent.isControlling", "Load"):
+				case p.isMethodOnField(d.Atom.X, "Agent.isControlling", "Load") || isRoleLoad(d.Atom.X):
 					role = d.Val
 				case p.IsField(d.Atom.X, "Agent.lite"):
 					lite = d.Val
@@ -339,14 +361,9 @@ func checkC05(p *Prog, r *Report) {
 		r.Check(bad == "" && len(t.Paths) == 4, "setSelector decision table", p.Pos(f.Body.Pos()), "4 rows", bad+": after a lost tie-break the agent keeps behaving in its old role (wrong control attribute, nominations ignored)")
 	}
 
-	// ---- R5.5 the role flag is used only inside the loop ----
-	r.Rule("R5.5", "The controlling/controlled flag is read and written only by code that runs inside the task loop or during construction: no exported entry point tests the role before queueing the task that depends on it.", 5)
-	checkRoleFlagConfined(p, r)
-}
-
-func boolStr(b bool) string {
-	if b {
-		return "yes"
+	// nothing else installs a selector: a role switch goes through setSelector (and so through the lite wrapper)
+	for f, nodes := range p.WritersOf("Agent.selector") {
+		okW := f.Name == "Agent.setSelector" || f.Root().Name == "createAgentBase"
+		r.Check(okW, "writer of Agent.selector: "+f.Name, p.Pos(nodes[0].Pos()), "setSelector only", "Agent.selector is installed in "+f.Name+", bypassing setSelector: a lite agent that switches role gets a bare selector without the lite wrapper and starts originating Binding requests")
 	}
-	return "no"
 }
